@@ -143,7 +143,10 @@ impl AnalysisResult {
 impl WriteAheadLog {
     /// Maximum record size that can fit in a single block
     pub(crate) fn max_record_size(&self) -> usize {
-        WalBlock::usable_space(self.block_size as usize) as usize
+        // Must agree with what an empty data block reports as available space (see
+        // `AvailableSpace for WalBlock`), otherwise a record in the gap passes this check, advances
+        // the log counters and only then fails to be placed.
+        WalBlock::usable_space(WalBlock::usable_space(self.block_size as usize) as usize) as usize
     }
 
     pub(crate) fn last_lsn(&self) -> Option<Lsn> {
